@@ -47,14 +47,14 @@ theorem updNeo_true (e : Env) (l : Ledger) (a : Nat) (amt : Int) (req : Option I
     exact updNeo_run e l a amt req l' d hv (fun _ => by simp [hg]) h
 
 theorem updNeo_false (e : Env) (l : Ledger) (a : Nat) (amt : Int) (req : Option Int) (l' : Ledger) (d : Option Int)
-    (h : updNeo e l a amt req = (l', false, d)) : sameCore l l' := by
+    (h : updNeo e l a amt req = (l', false, d)) : sameCore l l' ∧ l'.events = l.events := by
   unfold updNeo at h
   simp only [] at h
   have key : ∀ si, (if (neoInc e l si amt req).ok = true then
             ({ (neoInc e l si amt req).l with
                 neo := store (neoInc e l si amt req).l.neo a (neoInc e l si amt req).si },
               true, (neoInc e l si amt req).dist)
-          else ((neoInc e l si amt req).l, false, none)) = (l', false, d) → sameCore l l' := by
+          else ((neoInc e l si amt req).l, false, none)) = (l', false, d) → sameCore l l' ∧ l'.events = l.events := by
     intro si hh
     split at hh
     · injection hh with _ h2; injection h2 with h2; simp at h2
@@ -64,9 +64,9 @@ theorem updNeo_false (e : Env) (l : Ledger) (a : Nat) (amt : Int) (req : Option 
       exact neoInc_fail e l si amt req (by simpa using hok)
   split at h
   · split at h
-    · injection h with h1 _; subst h1; exact sameCore.rfl' _
+    · injection h with h1 _; subst h1; exact ⟨sameCore.rfl' _, rfl⟩
     · split at h
-      · injection h with h1 _; subst h1; exact sameCore.rfl' _
+      · injection h with h1 _; subst h1; exact ⟨sameCore.rfl' _, rfl⟩
       · split at h
         · injection h with _ h2; injection h2 with h2; simp at h2
         · exact key none h
@@ -101,7 +101,7 @@ theorem updNeo_credit_ok (e : Env) (l : Ledger) (a : Nat) (amt : Int) (hv : Vote
       | true => rw [neoInc_nonzero e l _ amt none acc1 g l1 (by omega) hguard hd hm]
       | false =>
         exfalso
-        obtain ⟨_, c, hc, hnone⟩ := modVotes_false l acc1 amt false l1 hm
+        obtain ⟨_, _, c, hc, hnone⟩ := modVotes_false l acc1 amt false l1 hm
         -- the account votes for c, so it is stored with a positive balance, so c has positive votes
         cases hg : get l.neo a with
         | none => rw [hv1, hg] at hc; simp at hc
@@ -157,10 +157,10 @@ theorem InvG.upd {nt : Nat} {dn dg k : Int} {t : Tok} {e : Env} {l l' : Ledger} 
   | gas => simpa using hi.updGas h
 
 theorem upd_false (t : Tok) (e : Env) (l : Ledger) (a : Nat) (amt : Int) (req : Option Int) (l' : Ledger) (d : Option Int)
-    (h : upd t e l a amt req = (l', false, d)) : sameCore l l' := by
+    (h : upd t e l a amt req = (l', false, d)) : sameCore l l' ∧ l'.events = l.events := by
   cases t with
   | neo => exact updNeo_false e l a amt req l' d h
-  | gas => rw [updGas_false l a amt req l' d h]; exact sameCore.rfl' _
+  | gas => rw [updGas_false l a amt req l' d h]; exact ⟨sameCore.rfl' _, rfl⟩
 
 theorem upd_credit_ok {nt : Nat} {dn dg k : Int} (t : Tok) (e : Env) (l : Ledger) (a : Nat) (amt : Int)
     (hi : InvG nt dn dg k l) (hpos : 0 < amt) : (upd t e l a amt none).2.1 = true := by
@@ -174,13 +174,13 @@ theorem upd_credit_ok {nt : Nat} {dn dg k : Int} (t : Tok) (e : Env) (l : Ledger
 the credit of `to` cannot fail after `from` was debited. -/
 theorem transferPre_ret {nt : Nat} {dn dg k : Int} (t : Tok) (e : Env) (l : Ledger) (src dst : Nat) (amt : Int)
     (wit : Bool) (l' : Ledger) (b : Bool) (hi : InvG nt dn dg k l)
-    (h : transferPre t e l src dst amt wit = .ret l' b) : sameCore l l' ∧ b = false := by
+    (h : transferPre t e l src dst amt wit = .ret l' b) : sameCore l l' ∧ b = false ∧ l'.events = l.events := by
   unfold transferPre at h
   simp only [] at h
   split at h
   · simp at h
   · split at h
-    · injection h with h1 h2; subst h1; exact ⟨sameCore.rfl' _, h2.symm⟩
+    · injection h with h1 h2; subst h1; exact ⟨sameCore.rfl' _, h2.symm, rfl⟩
     · cases hu : upd t e l src (if src = dst ∨ amt = 0 then 0 else -amt) (some amt) with
       | mk l1 r =>
         obtain ⟨ok1, d1⟩ := r
@@ -188,7 +188,7 @@ theorem transferPre_ret {nt : Nat} {dn dg k : Int} (t : Tok) (e : Env) (l : Ledg
         | false =>
           simp only [hu] at h
           injection h with h1 h2; subst h1
-          exact ⟨upd_false _ _ _ _ _ _ _ _ hu, h2.symm⟩
+          exact ⟨(upd_false _ _ _ _ _ _ _ _ hu).1, h2.symm, (upd_false _ _ _ _ _ _ _ _ hu).2⟩
         | true =>
           simp only [hu] at h
           split at h
